@@ -194,3 +194,55 @@ class Run:
             f"classes={cov['distinct_nontrivial']} wall={wall:.1f}s"
         )
         return 0
+
+
+def generic_replay(prop: str, path: str, mod) -> int:
+    """./check <id> --replay <file>: the replay file names a violation by its signature (and holds the failing input /
+    history for the reader); the property's check is run again at the tier recorded in the file name, with its evidence and
+    replay files sent to a scratch directory, and the outcome says whether a violation with that signature is found again.
+    exit 1: reproduced (VIOLATION line printed), exit 0: not reproduced on the current tree."""
+    import contextlib
+    import io
+    import tempfile
+
+    global EVIDENCE_DIR, REPLAY_DIR
+    data = json.loads(Path(path).read_text())
+    sig = data.get("signature") or (data.get("detail") or {}).get("signature")
+    tier = "thorough" if Path(path).name.startswith("thorough_") else "quick"
+    tmp = Path(tempfile.mkdtemp(prefix="verif_replay_"))
+    old = (EVIDENCE_DIR, REPLAY_DIR)
+    EVIDENCE_DIR, REPLAY_DIR = tmp / "evidence", tmp / "replays"
+    try:
+        out = io.StringIO()
+        with contextlib.redirect_stdout(out):
+            try:
+                mod.main(tier)
+            except SystemExit:
+                pass
+            except Exception:
+                import traceback
+
+                text = traceback.format_exc()
+                if sig == "library-exception-escaped" and any(
+                    "/odfdo/" in ln and "File " in ln and "/verif/" not in ln for ln in text.splitlines()
+                ):
+                    print(f"VIOLATION property={prop} replay={path}", file=sys.__stdout__)
+                    print("  reproduced: an exception escaped from the library again", file=sys.__stdout__)
+                    return 1
+                raise
+        found = []
+        for f in (tmp / "replays").rglob("*.json"):
+            try:
+                d = json.loads(f.read_text())
+            except ValueError:
+                continue
+            if d.get("signature") == sig or (d.get("detail") or {}).get("signature") == sig:
+                found.append(f)
+    finally:
+        EVIDENCE_DIR, REPLAY_DIR = old
+    if found:
+        print(f"VIOLATION property={prop} replay={path}")
+        print(f"  reproduced: signature {sig!r} found again by the {tier} tier")
+        return 1
+    print(f"replay property={prop}: signature {sig!r} not found again by the {tier} tier on the current tree")
+    return 0
